@@ -563,6 +563,137 @@ def leg_pandas_history(ns, res, spec):
     res.sample({'leg': 'pandas-history', 'histories': spec['n'], 'in_place_operations': ['relabel', 'permute', 'rename', 'add', 'drop', 'cell', 'relabel-b']})
 
 
+def leg_frontend_threads(ns, res, spec):
+    """The real front-ends side by side: 8 threads run query_csv (four dialects / encodings, with and without JOIN, some failing), query_pandas_dataframe
+    and query_sqlite_to_csv over their own files / frames / connections, pre-empted at statement level (sys.monitoring LINE yield injection in the engine, the
+    CSV reader / writer, the splitter and the pandas / sqlite adapters); every result must equal the one a forked child that ran nothing else produced."""
+    import json
+    import shutil
+    import sqlite3
+    import tempfile
+    import pandas as pd
+    d = tempfile.mkdtemp(prefix='rv-C16-')
+    try:
+        files = {
+            'comma': (',', 'quoted', 'utf-8', 'id,name\n1,"x,y"\n2,"q""t"\n3,plain\n2,dup\n'),
+            'semi_rfc': (';', 'quoted_rfc', 'utf-8', 'id;name\n1;"two\nlines"\n2;"semi;colon"\n3;z\n'),
+            'tab': ('\t', 'simple', 'utf-8', 'id\tname\n1\tcaf\u00e9\n2\t\u65e5\u672c\n3\ta b\n'),
+            'latin': ('|', 'simple', 'latin-1', 'id|name\n1|caf\u00e9\n2|\u00fcber\n3|\u00ff\n'),
+            'multi': ('::', 'quoted', 'utf-8', 'id::name\n1::"a::b"\n2::c\n'),
+        }
+        for k, (dlm, pol, enc, text) in files.items():
+            with open(os.path.join(d, k + '.csv'), 'w', encoding=enc, newline='') as f:
+                f.write(text)
+            with open(os.path.join(d, k + '_j.csv'), 'w', encoding=enc, newline='') as f:
+                f.write(dlm.join(['id', 'word']) + '\n' + ''.join(dlm.join([str(i), 'w%d' % i]) + '\n' for i in (1, 2, 2, 4)))
+        db = os.path.join(d, 't.sqlite')
+        c0 = sqlite3.connect(db)
+        c0.execute('CREATE TABLE t (id TEXT, name TEXT)')
+        c0.executemany('INSERT INTO t VALUES (?, ?)', [('1', 'caf\u00e9'), ('2', 'x'), ('3', 'y z')])
+        c0.execute('CREATE TABLE b (id TEXT, word TEXT)')
+        c0.executemany('INSERT INTO b VALUES (?, ?)', [('1', 'w1'), ('3', 'w3'), ('3', 'w3b')])
+        c0.commit()
+        c0.close()
+        queries = ['select a2, a1', 'select * where a1 != "2"', 'select a.name, NR order by a.id desc', 'update a2 = a2 + "!" + str(NU)', 'select distinct count a1', 'select a1, COUNT(*), MAX(a2) group by a1',
+                   'select a1, b2 join %s on a1 == b1', 'select a.name, b.word left join %s on a.id == b.id', 'select int(a2)', 'select a1 +', 'select top 2 a1, UNNEST(a2.split(" "))', 'select a.nosuch']
+        tasks = []
+        for k in files:
+            for qi, q in enumerate(queries):
+                tasks.append(('csv', k, qi))
+        for qi, q in enumerate(queries):
+            tasks.append(('pandas', None, qi))
+            tasks.append(('sqlite', None, qi))
+
+        def run_task(task, tag):
+            kind, k, qi = task
+            q = queries[qi]
+            warns = []
+            try:
+                if kind == 'csv':
+                    dlm, pol, enc, _t = files[k]
+                    q = q % (k + '_j.csv') if '%s' in q else q
+                    outp = os.path.join(d, 'out_%s.csv' % tag)
+                    ns.rbql.query_csv(q, os.path.join(d, k + '.csv'), dlm, pol, outp, dlm, pol, enc, warns, True)
+                    with open(outp, 'rb') as f:
+                        return {'error': None, 'out': f.read().hex(), 'warnings': warns}
+                if kind == 'pandas':
+                    q = q % 'b' if '%s' in q else q
+                    dfa = pd.DataFrame([['1', 'x y'], ['2', 'q'], ['3', 'r'], ['2', 'dup']], columns=['id', 'name'])
+                    dfb = pd.DataFrame([['1', 'w1'], ['2', 'w2'], ['2', 'w2b']], columns=['id', 'word'])
+                    out = ns.rbql.query_pandas_dataframe(q, dfa, warns, dfb if ' join ' in q else None)
+                    return {'error': None, 'out': [[str(c) for c in out.columns]] + [[str(v) for v in r] for r in out.values.tolist()], 'warnings': warns}
+                q = q % 'b' if '%s' in q else q
+                conn = sqlite3.connect(db)
+                try:
+                    outp = os.path.join(d, 'out_%s.csv' % tag)
+                    ns.sqlite.query_sqlite_to_csv(q, conn, 't', outp, ',', 'quoted_rfc', 'utf-8', warns)
+                    with open(outp, 'rb') as f:
+                        return {'error': None, 'out': f.read().hex(), 'warnings': warns}
+                finally:
+                    conn.close()
+            except Exception as e:
+                return {'error': util.error_class(e) if 'Rbql' in type(e).__name__ or isinstance(e, SyntaxError) else 'other:' + type(e).__name__, 'out': None, 'warnings': None}
+
+        # solo results: one forked child per task, before any thread exists and before this process has run a query
+        solo = []
+        for ti, task in enumerate(tasks):
+            r, w = os.pipe()
+            pid = os.fork()
+            if pid == 0:
+                code = 0
+                try:
+                    os.close(r)
+                    with os.fdopen(w, 'w') as f:
+                        f.write(json.dumps(run_task(task, 'solo%d' % ti)))
+                except BaseException:
+                    code = 1
+                os._exit(code)
+            os.close(w)
+            with os.fdopen(r) as f:
+                data = f.read()
+            os.waitpid(pid, 0)
+            solo.append(json.loads(data) if data else None)
+        res.count('frontend_solo_results_from_forked_children', sum(1 for x in solo if x is not None))
+        res.count('frontend_solo_failing', sum(1 for x in solo if x and x['error']))
+        inj = sched.YieldInjector(spec['seed'] * 13 + spec['shard'], ['rbql_engine.py', 'rbql_csv.py', 'csv_utils.py', 'rbql_pandas.py', 'rbql_sqlite.py'], rate=0.02)
+        old = sys.getswitchinterval()
+        sys.setswitchinterval(1e-6)
+        inj.start()
+        errors = []
+        lock = threading.Lock()
+        nthreads = 8
+
+        def worker(tid):
+            rng = random.Random(spec['seed'] * 211 + tid * 17 + spec['shard'])
+            for it in range(spec['n']):
+                ti = rng.randrange(len(tasks))
+                got = run_task(tasks[ti], 't%d' % tid)
+                if solo[ti] is not None and got != solo[ti]:
+                    with lock:
+                        errors.append((tid, ti, got))
+        threads = [threading.Thread(target=worker, args=(t,)) for t in range(nthreads)]
+        try:
+            for t in threads:
+                t.start()
+            for t in threads:
+                t.join()
+        finally:
+            inj.stop()
+            sys.setswitchinterval(old)
+        res.evaluations += nthreads * spec['n']
+        res.count('frontend_thread_runs', nthreads * spec['n'])
+        res.count('frontend_line_events', inj.events)
+        res.count('frontend_injected_yields', inj.yields)
+        res.nontrivial('frontend-threads', spec['shard'])
+        for tid, ti, got in errors[:5]:
+            kind, k, qi = tasks[ti]
+            res.violation('py:frontend-result-depends-on-other-threads:' + kind, '[py/%s%s] %r in thread %d among %d threads running other front-end queries -> %r ; alone in a forked child -> %r' % (kind, '/' + k if k else '', queries[qi], tid, nthreads, got, solo[ti]),
+                          {'leg': 'frontend-threads', 'task': list(tasks[ti]), 'query_text': queries[qi]})
+        res.sample({'leg': 'frontend-threads', 'threads': nthreads, 'tasks': len(tasks), 'runs': nthreads * spec['n'], 'line_events': inj.events, 'yields': inj.yields})
+    finally:
+        shutil.rmtree(d, ignore_errors=True)
+
+
 def leg_preempt(ns, res, spec):
     """8 threads x N queries with a tiny switch interval and seeded sleep(0) injected between statements of the engine and the generated loop."""
     R = spec['R']
@@ -635,6 +766,7 @@ def plan(tier, seed):
         specs += [{'kind': 'js-history', 'i': i, 'n': 40} for i in range(4)]
         specs.append({'kind': 'sqlite-history'})
         specs += [{'kind': 'pandas-history', 'i': i, 'n': 40} for i in range(2)]
+        specs += [{'kind': 'frontend-threads', 'n': 25} for i in range(2)]
     else:
         solo4 = fresh_baselines(4)
         kinds = ['get_record', 'write', 'finish']
@@ -654,20 +786,21 @@ def plan(tier, seed):
         specs += [{'kind': 'js-history', 'i': i, 'n': 200} for i in range(8)]
         specs.append({'kind': 'sqlite-history'})
         specs += [{'kind': 'pandas-history', 'i': i, 'n': 300} for i in range(6)]
+        specs += [{'kind': 'frontend-threads', 'n': 150} for i in range(8)]
     return specs
 
 
 def run_shard(spec, res):
     ns = env.import_rbql()
-    {'history': leg_history, 'interleave': leg_interleave, 'preempt': leg_preempt, 'generated': leg_generated, 'js-history': leg_js_history, 'sqlite-history': leg_sqlite_history, 'pandas-history': leg_pandas_history}[spec['kind']](ns, res, spec)
+    {'history': leg_history, 'interleave': leg_interleave, 'preempt': leg_preempt, 'generated': leg_generated, 'js-history': leg_js_history, 'sqlite-history': leg_sqlite_history, 'pandas-history': leg_pandas_history, 'frontend-threads': leg_frontend_threads}[spec['kind']](ns, res, spec)
 
 
 def summarize(tier, seed, m):
     return {
-        'rule': '%d scenarios (plain select, like, UNNEST, ORDER BY, DISTINCT COUNT, GROUP BY with all nine aggregates, JOIN, UPDATE with NU, TOP, syntax error, parsing error, runtime error at record 2, aggregate misuse, double UNNEST, and two pairs of identical query texts over differently ordered headers); solo results from one fresh interpreter per scenario; history: every sequence of length <= 2 plus random sequences of length 3..6 in one process; interleaving: every unordered pair of scenarios (incl. a scenario with itself) in two real threads under the cooperative scheduler, ALL interleavings of the get_record / write / finish steps enumerated by stateless DFS (%s); preemption stress with sys.monitoring LINE yield injection; generated queries (C01-C05 generators, failing variants, and header twins: the same query text over the same data with the columns in another order) whose solo results come from forked children of a query-free interpreter, then run in three shuffled orders through one interpreter (probe sink and CSV writer sink) and pairwise in two threads under seeded random schedules; the JS port sequentially: generated language-neutral queries alone in a fresh node process each vs three shuffled histories (with failing queries interspersed) in one node process; the sqlite front-end with one connection shared by every ordered pair of 15 queries (utf-8 / latin-1 output, 7 of them failing) vs a fresh connection each, and the caller\'s connection settings before / after; the pandas front-end with ONE DataFrame object (and one join frame) serving histories of 3-6 queries while its owner re-labels, permutes, renames, adds, drops and overwrites columns in place between them, each result compared with the same query over a newly built equal frame in a forked child that ran no query. distinct_nontrivial = distinct step traces realised + distinct history sequences.' % (
+        'rule': '%d scenarios (plain select, like, UNNEST, ORDER BY, DISTINCT COUNT, GROUP BY with all nine aggregates, JOIN, UPDATE with NU, TOP, syntax error, parsing error, runtime error at record 2, aggregate misuse, double UNNEST, and two pairs of identical query texts over differently ordered headers); solo results from one fresh interpreter per scenario; history: every sequence of length <= 2 plus random sequences of length 3..6 in one process; interleaving: every unordered pair of scenarios (incl. a scenario with itself) in two real threads under the cooperative scheduler, ALL interleavings of the get_record / write / finish steps enumerated by stateless DFS (%s); preemption stress with sys.monitoring LINE yield injection; generated queries (C01-C05 generators, failing variants, and header twins: the same query text over the same data with the columns in another order) whose solo results come from forked children of a query-free interpreter, then run in three shuffled orders through one interpreter (probe sink and CSV writer sink) and pairwise in two threads under seeded random schedules; the JS port sequentially: generated language-neutral queries alone in a fresh node process each vs three shuffled histories (with failing queries interspersed) in one node process; the sqlite front-end with one connection shared by every ordered pair of 15 queries (utf-8 / latin-1 output, 7 of them failing) vs a fresh connection each, and the caller\'s connection settings before / after; the pandas front-end with ONE DataFrame object (and one join frame) serving histories of 3-6 queries while its owner re-labels, permutes, renames, adds, drops and overwrites columns in place between them, each result compared with the same query over a newly built equal frame in a forked child that ran no query; the front-ends side by side: 8 threads running query_csv (five dialects / encodings, JOIN files, failing queries), query_pandas_dataframe and query_sqlite_to_csv under statement-level yield injection in the engine, CSV reader / writer, splitter and adapters, each result compared with a forked child that ran only that task. distinct_nontrivial = distinct step traces realised + distinct history sequences.' % (
             len(SCENARIOS), '2-record tables' if tier == 'quick' else '2- and 3-record tables for all pairs (3-record pairs capped at 20000 schedules), 4-record tables for 6 selected pairs'),
         'exhaustive': m['counters'].get('pairs_truncated', 0) == 0,
-        'required': ['pandas_history_runs', 'pandas_history_solo_results_from_forked_children', 'pandas_history_solo_failing', 'pandas_history_op:relabel', 'pandas_history_op:add', 'sqlite_history_runs', 'sqlite_history_solo_failing', 'js_solo_results_from_fresh_node_processes', 'js_history_runs', 'generated_solo_results', 'generated_header_twins', 'generated_history_runs', 'generated_interleaved_schedules', 'generated_interleaved_handoffs', 'schedules', 'pairs_enumerated_completely', 'handoffs', 'history_runs', 'preemption_runs', 'line_events_in_main_loop', 'injected_yields'],
+        'required': ['frontend_thread_runs', 'frontend_solo_results_from_forked_children', 'frontend_solo_failing', 'frontend_injected_yields', 'pandas_history_runs', 'pandas_history_solo_results_from_forked_children', 'pandas_history_solo_failing', 'pandas_history_op:relabel', 'pandas_history_op:add', 'sqlite_history_runs', 'sqlite_history_solo_failing', 'js_solo_results_from_fresh_node_processes', 'js_history_runs', 'generated_solo_results', 'generated_header_twins', 'generated_history_runs', 'generated_interleaved_schedules', 'generated_interleaved_handoffs', 'schedules', 'pairs_enumerated_completely', 'handoffs', 'history_runs', 'preemption_runs', 'line_events_in_main_loop', 'injected_yields'],
         'assumptions': ['exhaustive at the granularity of iterator / writer calls (what the statement names); statement-level preemption is sampled; bytecode-level is not explored', 'a change of module-level state alone is not a refutation (advisory notes only)'],
     }
 
